@@ -15,7 +15,8 @@ RULE = ('Full sessions over synthetic markets with start in {00:00, 09:00, 14:30
         'equal (schedule and clock and >= burn-in); fills only at 14:30 clock events and never before the first such '
         'instant; every equity value recomputed from the cash and holdings observed at that sample and the CSV\'s own '
         'close of that day; allocation table == forward fill of the latest recorded row on the equity dates. '
-        'Non-trivial: a session with a burn-in that cuts >= 1 scheduled instant or >= 2 rebalances; distinct = config signature.')
+        'Non-trivial: a session with a burn-in that cuts >= 1 scheduled instant or >= 2 rebalances; distinct = config signature.'
+        ' Start times also 09:30:15, 09:30:00.25 and 14:29:59.999999.')
 ASSUMPTIONS = ['at least one close after burn-in (an empty equity curve is outside the quantifier)',
                'start time-of-day 00:00-14:30, end 23:59 as documented']
 ALPHAS = ('fixed', 'single', 'topn_mom', 'sma_trend', 'inv_vol', 'mom_sign')
